@@ -44,6 +44,7 @@ func (e *Engine) structuralChecks(prop string) []*StructObl {
 	}
 	out = append(out, e.coverChecks(prop)...)
 	out = append(out, e.journalChecks(prop)...)
+	out = append(out, e.fieldPairChecks(prop)...)
 	return out
 }
 
@@ -563,4 +564,146 @@ func (e *Engine) journalChecks(prop string) []*StructObl {
 		}
 	}
 	return out
+}
+
+// ---------------------------------------------------------------------------
+// fieldpair: a table invariant of the shape "an entry that sets field A also sets field B",
+// decided per object construction site (composite literal or new + field stores) in the SSA of
+// the package. One obligation per construction site that sets A, named by the source line of
+// the store to A.
+
+func (e *Engine) fieldPairChecks(prop string) []*StructObl {
+	var out []*StructObl
+	for _, sf := range e.specFiles {
+		sp := e.spkgs[sf.Pkg]
+		for _, fp := range sf.FieldPairs {
+			if !hasProp(fp.Props, prop) {
+				continue
+			}
+			grp := fmt.Sprintf("fieldpair/%s/%s=>%s", fp.Type, fp.If, fp.Then)
+			var T types.Type
+			if sp != nil {
+				if tn, ok := sp.Pkg.Scope().Lookup(fp.Type).(*types.TypeName); ok {
+					T = tn.Type()
+				}
+			}
+			st, _ := func() (*types.Struct, bool) {
+				if T == nil {
+					return nil, false
+				}
+				s, ok := T.Underlying().(*types.Struct)
+				return s, ok
+			}()
+			if st == nil {
+				out = append(out, &StructObl{Name: grp, Group: grp, Clause: "struct type resolves", OK: false, Detail: "type " + fp.Type + " not found"})
+				continue
+			}
+			idx := func(name string) int {
+				for i := 0; i < st.NumFields(); i++ {
+					if st.Field(i).Name() == name {
+						return i
+					}
+				}
+				return -1
+			}
+			iIf, iThen := idx(fp.If), idx(fp.Then)
+			if iIf < 0 || iThen < 0 {
+				out = append(out, &StructObl{Name: grp, Group: grp, Clause: "fields resolve", OK: false, Detail: "field not found"})
+				continue
+			}
+			sites := 0
+			var fns []*ssa.Function
+			for fn := range e.allFuncs {
+				if fn.Pkg == sp {
+					fns = append(fns, fn)
+				}
+			}
+			sort.Slice(fns, func(i, j int) bool { return fns[i].String() < fns[j].String() })
+			for _, fn := range fns {
+				for _, b := range fn.Blocks {
+					for _, in := range b.Instrs {
+						al, ok := in.(*ssa.Alloc)
+						if !ok || !types.Identical(deref(al.Type()), T) {
+							continue
+						}
+						var ifPos token.Pos
+						setIf, setThen := false, false
+						if refs := al.Referrers(); refs != nil {
+							for _, r := range *refs {
+								fa, ok := r.(*ssa.FieldAddr)
+								if !ok {
+									continue
+								}
+								stored := false
+								if frefs := fa.Referrers(); frefs != nil {
+									for _, fr := range *frefs {
+										if stv, ok := fr.(*ssa.Store); ok && stv.Addr == fa {
+											if k, isConst := stv.Val.(*ssa.Const); isConst && k.Value == nil {
+												continue // explicit nil
+											}
+											stored = true
+											if fa.Field == iIf {
+												ifPos = stv.Pos()
+											}
+										}
+									}
+								}
+								if stored && fa.Field == iIf {
+									setIf = true
+								}
+								if stored && fa.Field == iThen {
+									setThen = true
+								}
+							}
+						}
+						if !setIf {
+							continue
+						}
+						sites++
+						where := e.lineText(ifPos)
+						if where == "" || where == "?" {
+							where = e.posString(al.Pos())
+						}
+						ctxLine := e.enclosingKey(ifPos)
+						name := fmt.Sprintf("%s/%s[%s %s]", grp, fn.Name(), ctxLine, strings.TrimSpace(where))
+						out = append(out, &StructObl{Name: name, Group: grp,
+							Clause: fmt.Sprintf("an %s that sets %s also sets %s", fp.Type, fp.If, fp.Then), OK: setThen,
+							Detail: e.posString(ifPos)})
+					}
+				}
+			}
+			if sites == 0 {
+				out = append(out, &StructObl{Name: grp + "/sites", Group: grp, Clause: "at least one construction site sets " + fp.If, OK: false, Detail: "no site found (vacuous)"})
+			}
+		}
+	}
+	return out
+}
+
+// enclosingKey: for a position inside a keyed element of a composite literal ("ETX: {...}"),
+// the text of the nearest enclosing key; "" otherwise.
+func (e *Engine) enclosingKey(pos token.Pos) string {
+	if !pos.IsValid() {
+		return ""
+	}
+	file := e.fileOf(pos)
+	if file == nil {
+		return ""
+	}
+	best := ""
+	ast.Inspect(file, func(n ast.Node) bool {
+		if n == nil {
+			return false
+		}
+		if n.Pos() > pos || n.End() < pos {
+			return false
+		}
+		if kv, ok := n.(*ast.KeyValueExpr); ok {
+			if _, isLit := kv.Value.(*ast.CompositeLit); isLit {
+				best = exprString(kv.Key) + ":"
+			}
+		}
+		return true
+	})
+	return best
 }
